@@ -64,6 +64,19 @@ EPILOGUE = """\
     x(late.q);
     bit lb = measure late.q;
     echo(lb);
+    qubit coin;
+    h(coin);
+    bit cm = measure coin;
+    final bit fixb = cm;
+    final int fixi = 2 + (int)(cm);
+    final boolean fixz = cm == 1b;
+    echo(fixb);
+    echo(fixi);
+    if (fixz) {
+        x(late.qs[0]);
+    }
+    bit after = measure late.qs[0];
+    echo(after);
 """
 
 
